@@ -331,6 +331,11 @@ class GitStore(Store):
             raise InvalidFileContents(
                 content_type, data, f"{CONFIG_FILENAME} is a reserved name"
             )
+        if name.lower() == dulwich.repo.CONTROLDIR:
+            # git refuses trees that contain an entry called ".git"
+            raise InvalidFileContents(
+                content_type, data, f"{name} is a reserved name"
+            )
         fi.validate()
         try:
             uid = fi.get_uid()
